@@ -46,9 +46,9 @@ def searchLegacyPipeline (ri : RuneInfo) (score : Nat → S) (db : Db) (o : Opts
 
 /-! ### recovery searches -/
 
-def basicScore : Q := ⟨1, 1⟩
-def singleWordScore : Q := ⟨4, 5⟩
-def partialScore : Q := ⟨3, 5⟩
+def basicScore : Q := Gen.SearchParams.recoveryBasicScore
+def singleWordScore : Q := Gen.SearchParams.recoverySingleWordScore
+def partialScore : Q := Gen.SearchParams.recoveryPartialScore
 
 /-- `for i := range db.Commands { if p(cmd) { results = append(results, {cmd, s}) } }` -/
 def scan (p : Cmd → Bool) (s : S) : Nat → Db → List (Nat × S)
@@ -114,7 +114,7 @@ def cliResults (T : Tuning S) (db : Db) (q : Bytes) (o : Opts S) : Except Panic 
     validation.ValidateLimit rejects `flag < 0` and `flag > maxLimit` (100) (the command returns before searching:
     `none`), maps 0 to `constants.DefaultSearchLimit`; then `if limit > 0 { cfg.MaxResults = limit }` over
     the default written in config.DefaultConfig(). -/
-def cliMaxLimit : Int := 100
+def cliMaxLimit : Int := (Gen.SearchParams.cliMaxLimit : Nat)
 
 def cliLimit (configDefault : Int) (flag : Int) : Option Int :=
   if flag < 0 || flag > cliMaxLimit then none else
